@@ -9,14 +9,17 @@ Firsts == {"connect_valid", "connect_unknown_object", "connect_bad_payload", "co
            "garbage", "bad_version", "bad_magic", "oversized", "truncated", "empty"}
 \* return:lock - the validator accepts but hands back something no serializer can encode: the handshake cannot be completed
 Validators == {"accept", "return:None", "return:False", "return:0", "return:list", "return:lock", "raise:ValueError", "raise:KeyError",
-               "raise:SecurityError", "raise:ConnectionClosedError", "raise:PyroError", "raise:TimeoutError"}
+               "raise:SecurityError", "raise:ConnectionClosedError", "raise:PyroError", "raise:TimeoutError",
+               \* the validator refuses with an exception that has no message: there is no reason text to demand, but it is a refusal
+               "raise:EmptyPermissionError", "raise:EmptySecurityError"}
+NoMessage == {"raise:EmptyPermissionError", "raise:EmptySecurityError"}
 PipeItems == {"invoke_target", "invoke_daemon", "oneway_target", "batch_target", "getattr_target"}
 Returns(v) == v = "accept" \/ SubSeq(v, 1, 7) = "return:"
 DefinedTypes == {"type_invoke", "type_result", "type_ping", "type_connectok", "type_connectfail"}
 Accept(f, v) == f = "connect_valid" /\ Returns(v) /\ v # "return:lock"
 \* the validator is consulted for a decodable CONNECT payload only
 MustReason(f, v) == \/ f \in DefinedTypes
-                    \/ f \in {"connect_valid", "connect_unknown_object"} /\ ~Returns(v) /\ v # "raise:ConnectionClosedError"
+                    \/ f \in {"connect_valid", "connect_unknown_object"} /\ ~Returns(v) /\ v # "raise:ConnectionClosedError" /\ v \notin NoMessage
                     \/ f = "connect_unknown_object" /\ Returns(v)
 VARIABLES first, val, pipe, done
 Init == first \in Firsts /\ val \in Validators /\ pipe = <<>> /\ done = FALSE
